@@ -16,9 +16,9 @@
 (***************************************************************************)
 EXTENDS Run, Json, IOUtils, TLCExt
 
-VARIABLES tid, l, verdict, expect, changed, sites
+VARIABLES tid, l, verdict, expect, changed, sites, env
 
-tvars == <<vars, tid, l, verdict, expect, changed, sites>>
+tvars == <<vars, tid, l, verdict, expect, changed, sites, env>>
 
 Traces == JsonDeserialize(IOEnv.TRACE_FILE)
 
@@ -31,9 +31,9 @@ Fails(checks) == {checks[i][2] : i \in {j \in 1..Len(checks) : ~checks[j][1]}}
 
 \* the property invariants of Run, evaluated in the state just reached
 InvFails ==
-  Fails(<< <<C03_Composes,        "inv:C03_Composes">>,
+  Fails(<< <<C03_ComposesExcept(env), "inv:C03_Composes">>,
            <<C03_RealChanges,     "inv:C03_RealChanges">>,
-           <<C04_DryRunFrozen,    "inv:C04_DryRunFrozen">>,
+           <<C04_DryRunFrozenExcept(env), "inv:C04_DryRunFrozen">>,
            <<C10_FailedUntouched, "inv:C10_FailedUntouched">>,
            <<C11_WorkerBound,     "inv:C11_WorkerBound">>,
            <<C15_ReportShape,     "inv:C15_ReportShape">>,
@@ -41,15 +41,15 @@ InvFails ==
            <<C20_ExitStatus,      "inv:C20_ExitStatus">> >>)
 
 Advance(guardFails) ==
-  /\ l' = l + 1 /\ tid' = tid
+  /\ l' = l + 1 /\ tid' = tid /\ env' = env
   /\ verdict' = verdict \cup guardFails \cup InvFails'
 
 NoExpect == [files |-> FALSE, mayChange |-> <<>>, mustChange |-> <<>>,
              sites |-> FALSE, siteMay |-> <<>>, siteMust |-> <<>>, exit |-> -1,
-             sel |-> FALSE, queues |-> <<>>]
+             sel |-> FALSE, queues |-> <<>>, faults |-> FALSE, mustFail |-> <<>>]
 
 TraceInit ==
-  /\ tid \in 1..Len(Traces) /\ l = 1 /\ verdict = {} /\ expect = NoExpect /\ changed = {} /\ sites = <<>>
+  /\ tid \in 1..Len(Traces) /\ l = 1 /\ verdict = {} /\ expect = NoExpect /\ changed = {} /\ sites = <<>> /\ env = {}
   /\ pc = "init" /\ cfg = [dryRun |-> FALSE, maxWorkers |-> 1, output |-> FALSE]
   /\ files = <<>> /\ queue = <<>> /\ started = <<>> /\ cur = NoC
   /\ disk = <<>> /\ orig = <<>> /\ inflight = {} /\ done = <<>> /\ agg = <<>>
@@ -111,6 +111,9 @@ TrFileEnd ==
              IF cfg.dryRun THEN "FileEnd:dry-run-wrote" ELSE IF e.o = "failed" THEN "FileEnd:failed-file-modified" ELSE "FileEnd:silent-write">>,
           <<e.o = "changed" => (e.nchanges >= 1 /\ e.linesOk /\ e.descOk /\ e.pathOk), "FileEnd:malformed-changeset">>,
           <<e.o = "failed" => e.nchangesets = 0, "FileEnd:failed-and-changed">>,
+          <<(expect.faults /\ \E i \in 1..Len(expect.mustFail) : expect.mustFail[i].c = cur /\ expect.mustFail[i].f = e.f)
+               => e.o = "failed", "FileEnd:unprocessable-file-not-reported-failed">>,
+          <<e.o = "failed" => e.unfixedAll, "FileEnd:findings-of-failed-file-not-reported-unfixed">>,
           <<(expect.files /\ e.o = "changed") => e.f \in ToSet(expect.mayChange), "FileEnd:file-not-selected-was-changed">>,
           <<(expect.sites /\ e.o = "changed") => ToSet(e.sites) \subseteq SiteMayOf(e.f), "FileEnd:site-not-permitted-was-rewritten">>,
           <<(expect.sites /\ e.o = "changed") => ToSet(e.clines) \subseteq SiteMayOf(e.f), "FileEnd:change-entry-for-unpermitted-line">>,
@@ -193,6 +196,16 @@ TrRunEnd ==
           <<(expect.sites /\ Completed) => \A f \in DOMAIN expect.siteMust : ToSet(expect.siteMust[f]) \subseteq sites[f], "RunEnd:permitted-site-not-rewritten">>
         >>))
 
+\* a step of the environment (fault injection by the harness: a file deleted or replaced while the run is going on);
+\* not an action of codemodder: the file is exempt from the composition invariants from here on
+TrEnvChange ==
+  /\ IsEv("EnvChange")
+  /\ disk' = [disk EXCEPT ![Ev.f] = Ev.post]
+  /\ env' = env \cup {Ev.f}
+  /\ l' = l + 1 /\ tid' = tid
+  /\ UNCHANGED <<pc, cfg, files, queue, started, cur, orig, inflight, done, agg, merged, report, rstate, exit, expect, changed, sites>>
+  /\ verdict' = verdict \cup InvFails'
+
 \* cross-run comparisons computed by the harness (dry vs real, batch vs chain, perturbed vs reference run, second run)
 TrCompare ==
   /\ IsEv("Compare")
@@ -201,7 +214,7 @@ TrCompare ==
   /\ Advance(Fails(<< <<Ev.equal, "Compare:" \o Ev.what>> >>))
 
 TraceNext ==
-  \/ TrCompare
+  \/ TrCompare \/ TrEnvChange
   \/ TrRunStart \/ TrSelected \/ TrCodemodStart \/ TrFileBegin \/ TrFileEnd \/ TrMerge
   \/ TrCodemodEnd \/ TrDeps \/ TrReportBuilt \/ TrReportWritten \/ TrRunEnd
 
